@@ -124,7 +124,8 @@ def _eval_dictionary(ctx, vocab_ci, probe):
     def run(it: Interp):
         return it.run_function(Fn(f), [probe, Cls(vocab_ci)], {})
 
-    paths = explore(ctx.p, run, {"inline": lambda fi, node: False})
+    # helper functions of the checks module (e.g. a cached vocabulary builder) are part of the guard
+    paths = explore(ctx.p, run, {"inline": lambda fi, node: fi.module.name == "indi.message.checks" and fi is not f})
     ctx.paths_enumerated += len(paths)
     outcomes = {pa.outcome for pa in paths}
     if len(paths) != 1:
@@ -186,7 +187,7 @@ def rule_raise(ctx):
     f = _dictionary_fn(p)
     for vname in sorted(T.VOCAB_MEMBERS):
         ci = _const_cls(p, vname)
-        paths = run_method(p, f, args=[Term("param", "value"), Cls(ci)])
+        paths = run_method(p, f, args=[Term("param", "value"), Cls(ci)], opts={"inline": lambda fi, node: fi.module.name == "indi.message.checks" and fi is not f})
         ctx.paths_enumerated += len(paths)
         ok = len(paths) >= 2 and any(pa.outcome == "raise" for pa in paths) and any(pa.outcome == "return" for pa in paths)
         for pa in paths:
